@@ -7,24 +7,30 @@
 #ifndef VERIF_LIBC_FRAME_H
 #define VERIF_LIBC_FRAME_H
 #include <stddef.h>
+/* VERIF_MEM_HAVOC_ONLY(dst): a proof TU may restrict the havoc to some destinations (e.g. the packet buffer) when every
+   other destination already holds unconstrained nondeterministic content that no obligation reads (float sample buffers
+   inside an 18 kB encoder state: havocking a symbolic slice of such an object costs > 20 GB) */
+#ifndef VERIF_MEM_HAVOC_ONLY
+#define VERIF_MEM_HAVOC_ONLY(dst) 1
+#endif
 void *memmove(void *dst, const void *src, size_t n)
 {
   __CPROVER_assert(n == 0 || __CPROVER_r_ok(src, n), "memmove: source readable for n bytes");
   __CPROVER_assert(n == 0 || __CPROVER_w_ok(dst, n), "memmove: destination writable for n bytes");
-  if (n > 0) __CPROVER_havoc_slice(dst, n);
+  if (n > 0 && VERIF_MEM_HAVOC_ONLY(dst)) __CPROVER_havoc_slice(dst, n);
   return dst;
 }
 void *memcpy(void *dst, const void *src, size_t n)
 {
   __CPROVER_assert(n == 0 || __CPROVER_r_ok(src, n), "memcpy: source readable for n bytes");
   __CPROVER_assert(n == 0 || __CPROVER_w_ok(dst, n), "memcpy: destination writable for n bytes");
-  if (n > 0) __CPROVER_havoc_slice(dst, n);
+  if (n > 0 && VERIF_MEM_HAVOC_ONLY(dst)) __CPROVER_havoc_slice(dst, n);
   return dst;
 }
 void *memset(void *dst, int c, size_t n)
 {
   __CPROVER_assert(n == 0 || __CPROVER_w_ok(dst, n), "memset: destination writable for n bytes");
-  if (n > 0) __CPROVER_havoc_slice(dst, n);
+  if (n > 0 && VERIF_MEM_HAVOC_ONLY(dst)) __CPROVER_havoc_slice(dst, n);
   return dst;
 }
 #endif
